@@ -47,6 +47,9 @@ type Box struct {
 	// --spokfile <project>/spokfile; "abs-elsewhere" / "rel-elsewhere" in a sibling directory with an
 	// absolute / relative --spokfile. All of them name the same spokfile, so nothing else may differ.
 	Invoke string
+	// ClosedStdout: the next run's standard output is a pipe nobody reads from any more (`spok ... | head -0`):
+	// the first thing spok prints kills it. Reset after one run.
+	ClosedStdout bool
 }
 
 // New creates a sandbox below base with a private copy of the spok binary.
@@ -228,6 +231,14 @@ func (b *Box) RunWrapped(wrapper []string, cwd string, env []string, timeout tim
 	cmd.Cancel = func() error { return syscall.Kill(-cmd.Process.Pid, syscall.SIGKILL) }
 	var so, se bytes.Buffer
 	cmd.Stdout, cmd.Stderr = &so, &se
+	if b.ClosedStdout {
+		b.ClosedStdout = false
+		if pr, pw, perr := os.Pipe(); perr == nil {
+			_ = pr.Close()
+			cmd.Stdout = pw
+			defer pw.Close()
+		}
+	}
 	err := cmd.Run()
 	res := Result{Stdout: so.String(), Stderr: se.String()}
 	if cx.Err() != nil {
